@@ -356,6 +356,11 @@ class UCMM( device.Object ):
                             if ( ids[0] != 0x06 or ids[1] != 1 ):
                                 log.warning( "Unconnected Send targeted Object other than Connection Manager: 0x%04x/%d", ids[0], ids[1] )
                         CM		= device.lookup( class_id=ids[0], instance_id=ids[1] )
+                        # Only a Connection Manager knows how to process an Unconnected Send; any other
+                        # Object would mistake the wrapper (service 0x52, path, ...) for a request of its
+                        # own, and the encapsulated request would be returned unprocessed, as the reply.
+                        assert isinstance( CM, device.Connection_Manager ), \
+                            "Unconnected Send targeted Object %r is not a Connection Manager" % ( CM, )
                         CM.request( unc_send, addr=addr )
 
                     # After successful processing of the Unconnected Send on the target node, we
